@@ -1,6 +1,6 @@
 (* Properties_C01.v — C01: a checkpoint at any batch resumes the exact remaining stream (StatefulDataLoader).
    Model: SdlModel.v (multi-process iterator, state_dict, construction from a state dict), proofs: SdlMapProofs.v. *)
-From PD Require Import Base SdlModel SdlObs SdlMapProofs.
+From PD Require Import Base SdlModel SdlObs SdlMapProofs SdlIterWorker.
 Open Scope list_scope. Open Scope nat_scope.
 
 (* map-style datasets, PROVED: for every configuration (num_workers > 0, prefetch_factor > 0, ANY snapshot interval, any
@@ -40,6 +40,22 @@ Definition C01_iter_statement : Prop :=
   let '(sk, _) := replay c k (sdl_fresh c) sched1 in
   let '(sr, sched') := sdl_resume c (state_dict sk) sched2 in
   outcomes c (S (length (reference c) - k)) sr sched' = map OBatch (skipn k (reference c)) ++ [OStop].
+
+(* PROVED building blocks of the iterable statement — the worker side: a worker restored from the (position, fetcher_ended)
+   state that ANY of its answers carried gives, for every further task sequence, exactly the answers the original worker
+   would have given (so the per-worker part of a checkpoint resumes exactly); and from any position the answers are the
+   remaining batches of the shard, then end-of-shard notices *)
+Theorem C01_iter_restored_worker_continues : forall c, c_kind c = KIter -> forall w k t ts,
+  let '(_, st, k') := worker_fetch c w k t in
+  forall sv, st = Some sv -> fst (fetches c w (wk_restored sv) ts) = fst (fetches c w k' ts).
+Proof. exact restored_worker_continues. Qed.
+Print Assumptions C01_iter_restored_worker_continues.
+
+Theorem C01_iter_worker_rest_exact : forall c, c_kind c = KIter -> forall w fuel pos k ts,
+  wk_pos k = pos -> wk_ended k = false -> length (skipn pos (shard c w)) < fuel ->
+  fst (fetches c w k ts) = answers (length ts) (chunks fuel (c_bs c) (c_drop c) (skipn pos (shard c w))).
+Proof. exact fetches_are_chunks. Qed.
+Print Assumptions C01_iter_worker_rest_exact.
 
 (* non-vacuity / regression instances (tests, not proofs): README-style iterable dataset N=10, bs=2, W=2, k=5 (the D1 case),
    and a map-style instance with interval 3 *)
